@@ -9,6 +9,7 @@ STUBS = ['zlib / libzstd: contract stubs (arbitrary status, arbitrary output wit
          'OpenMP pragmas: sequential schedule of the _OPENMP-enabled code', 'malloc of more than 1 GiB returns NULL']
 MODES = {0: 'buffer', 1: 'stdio', 2: 'mmap'}
 REG = {0: 'footer', 1: 'data-region'}
+HEAVY0 = (48, 72, 120)   # footer windows of skeleton 0 that hold dictionary/data page offsets and sizes (path-heavy)
 
 
 def win(skel, region, w0, nwin, stride, wlen, om, timeout=1700):
@@ -43,7 +44,11 @@ def obligations(tier):
         # positions), the first 48 bytes of the data region (page header + body of the first pages), strided samples for the
         # stdio/mmap paths and skeleton 1; everything else is in the thorough tier
         for w0 in range(0, 192, 8):
-            o.append(win(0, 0, w0, 8, 1, 1, 0, 620))
+            if w0 in HEAVY0:      # windows over the chunk's page offsets: one position per obligation
+                for k in range(8):
+                    o.append(win(0, 0, w0 + k, 1, 1, 1, 0, 620))
+            else:
+                o.append(win(0, 0, w0, 8, 1, 1, 0, 620))
         for w0 in range(0, 48, 8):
             o.append(win(0, 1, w0, 8, 1, 1, 0, 620))
         o.append(win(0, 0, 0, 6, 31, 1, 1, 620)); o.append(win(0, 0, 0, 6, 31, 1, 2, 620))
